@@ -2,6 +2,7 @@
 from props import brokerprops as B
 
 LEVEL = 'proof'
+TRUSTED_EXTRA = ['harness/pytrans3.py: fail-closed translator of Server.subscribe/unsubscribe/publish (hpfeeds/broker/server.py) and Connection.is_closing/connection_lost/on_publish/on_subscribe/on_unsubscribe/authenticate/message_received (hpfeeds/broker/connection.py) -> coq/BrokerGen.v (regenerated on every run), with coq/PyBroker.v, its reading of the objects (a Connection = its index; self.server None / not in server.connections = one flag; sets and the subscriber list as lists; which metrics, log calls and attributes are skipped; where the ghost log of accepted actions is appended); each translated method is proved equal to the hand-written model in coq/BrokerGenEq.v and run_src = run in coq/BrokerGenRun.v; hand-written there: the frame loop of process_pending, BaseProtocol.message_received dispatch, Connection.on_auth, connection_made, transport callbacks, the deadline timer', 'FunctionalExtensionality.functional_extensionality_dep (Coq standard library) for the *_src_* theorems only']
 ASSUMPTIONS = B.ASSUMPTIONS + [
     'lookups are futures the driver completes (ok / none / exception) in any order relative to other events, FIFO per connection',
     'the full "same outcome as a synchronous store consulted at completion" statement is checked by the correspondence with the '
@@ -11,7 +12,7 @@ RULE = ('histories with an asynchronous store: AUTH with requests pipelined behi
         'completed with the right row / another row / nothing / an exception at random points between other connections\' '
         'traffic, Lost/EOF while a lookup is pending, several lookups in flight; non-trivial = at least one PUBLISH delivered; '
         'compared with the Coq model on aspects %s; oracles: (1) no input is read from a connection while one of its lookups is '
-        'pending, (2) an exception while applying a verdict does not leave the connection open, (3) an ended connection is forgotten, (4) no connection stays paused once no lookup is in flight, (5) a lookup that finds nothing only refuses that connection (no delivery, no further lookup, no change of identity); plus a directed scenario: several connections authenticating as the same ident with lookups in flight at once, some leaving before the verdict')
+        'pending, (2) an exception while applying a verdict does not leave the connection open, (3) an ended connection is forgotten, (4) no connection stays paused once no lookup is in flight, (5) a lookup that finds nothing or raises only refuses that connection (no delivery, no further lookup, no change of identity); plus a directed scenario: several connections authenticating as the same ident with lookups in flight at once, some leaving before the verdict')
 PLAN = [(40, 800, dict(scenario='same_ident_inflight'), False), (150, 4000, dict(profile='mixed', async_=True), False),
         (80, 2000, dict(profile='mixed', async_=True, faults=0.1), False),
         (60, 1500, dict(profile='hostile', async_=True), False),
@@ -46,19 +47,20 @@ def async_oracle(case, d):
                 return where + 'an exception while applying the verdict was swallowed: connection %d stays open' % ev[1]
         # (5) never after a failed lookup: a verdict "no such identity" must only refuse this connection - nothing it had
         # queued behind the OP_AUTH may reach anybody, start another lookup or change who it is
-        if ev[0] == 'R' and rec['delivered'] and ev[2] == 'none' and prev is not None and ev[1] in prev:
+        if ev[0] == 'R' and rec['delivered'] and ev[2] in ('none', 'raise') and prev is not None and ev[1] in prev:
             q = ev[1]
+            nothing = 'found nothing' if ev[2] == 'none' else 'raised'
             others = [r for r in prev if r != q and r in rec['snap'] and rec['snap'][r]['nframes'] != prev[r]['nframes']]
             if others:
-                return where + ('after the lookup for connection %d found nothing, connection(s) %s were sent something: frames queued '
-                                'behind the failed OP_AUTH took effect' % (q, others))
+                return where + ('after the lookup for connection %d %s, connection(s) %s were sent something: frames queued '
+                                'behind the failed OP_AUTH took effect' % (q, nothing, others))
             if rec.get('pending_after', 0) > rec.get('pending_before', 0) - 1:
-                return where + ('after the lookup for connection %d found nothing, another credential lookup was started for it: a frame '
-                                'queued behind the failed OP_AUTH was acted on' % q)
+                return where + ('after the lookup for connection %d %s, another credential lookup was started for it: a frame '
+                                'queued behind the failed OP_AUTH was acted on' % (q, nothing))
             if rec['snap'][q]['ak'] != prev[q]['ak'] or rec['snap'][q]['active'] != prev[q]['active']:
-                return where + 'after the lookup for connection %d found nothing its identity / subscriptions changed' % q
+                return where + 'after the lookup for connection %d %s its identity / subscriptions changed' % (q, nothing)
             if not rec['snap'][q]['closing']:
-                return where + 'after the lookup for connection %d found nothing it was not disconnected' % q
+                return where + 'after the lookup for connection %d %s it was not disconnected' % (q, nothing)
         # (4) neither acted on nor dropped: a connection that is open with reading paused although the store has no lookup
         # in flight any more (all completed, or cancelled by the broker) will never look at the frames behind its OP_AUTH
         for q, s in rec['snap'].items():
